@@ -207,6 +207,8 @@ def run(ctx, P):
     c13.clause_stop_paths(ctx, P, "C17g")
     r2.address_types_come_in_pairs(ctx, P, "C17i")
     r2.refresh_result_is_per_record(ctx, P, "C17j")
+    from . import r4
+    r4.response_tail_always_runs(ctx, P, "C17k", want=("addresses",))
     from . import c19
     c19.clause_a(ctx, P)       # the doubling schedule of the hostname search (shared with C19)
     from . import c03
